@@ -46,7 +46,12 @@ DomClause(cfg, e) ==
        THEN {IF e.foreign = 1 THEN "space-accepts-foreign-array" ELSE "space-accepts-plan-outside-domain"}
   ELSE {}
 Dom(c) == IF "dom" \in DOMAIN c THEN c.dom ELSE <<>>
+\* the instance must store the limits its constructor was given (cfg = the arguments, cfg.stored = the attributes)
+StoredClause(cfg) ==
+  IF "stored" \in DOMAIN cfg /\ \E k \in {"n", "rounds", "hmin", "hmax", "amin", "amax", "smin", "smax"} : cfg.stored[k] # cfg[k]
+  THEN {"instance-stores-other-limits-than-given"} ELSE {}
 VerdictC07(c) == UNION {ErrClauses(c.cfg, c.ub, c.plans[i]) : i \in 1..Len(c.plans)}
+                 \cup StoredClause(c.cfg)
                  \cup UNION {DomClause(c.cfg, Dom(c)[i]) : i \in 1..Len(Dom(c))}
 
 \* ---------------------------------------------------------------- C08
